@@ -272,6 +272,7 @@ type PKIOpts struct {
 	Ext        SGXExt
 	RootCRLURL string                  // CRL distribution point of the root (and of inter / TCB signer); default DefaultRootCRLURL
 	Windows    map[string][2]time.Time // per-role override; roles "root","inter","leaf","tcbsigner"
+	RootCRLDPs []string                // if non-nil: the root's CRL distribution points (several allowed)
 }
 
 // PKI is Intel's SGX hierarchy in miniature.
@@ -304,6 +305,9 @@ func NewPKI(r *rand.Rand, o PKIOpts) (*PKI, error) {
 			w = [2]time.Time{o.Now.Add(-365 * day), o.Now.Add(365 * day)}
 		}
 		spec := CertSpec{CN: cn, NotBefore: w[0], NotAfter: w[1], IsCA: ca, CRLDP: []string{crldp}, SGXExtDER: sgx}
+		if role == "root" && o.RootCRLDPs != nil {
+			spec.CRLDP = o.RootCRLDPs
+		}
 		return MakeCert(r, spec, NewKey(r), parent)
 	}
 	var err error
